@@ -44,6 +44,24 @@ fn play(rng: &mut Rng, r: &mut Report, rp: &dyn Fn() -> Json, continue_existing:
             return;
         }
     }
+    // one history in three starts with a small realistic prelude (unchecked direct calls): equal-valued
+    // constants, an array whose length is one of them; their ids seed the operand pool, so that later
+    // requests differ from existing declarations only in WHICH equal-valued constant they name
+    let mut prelude_ids: Vec<u32> = vec![];
+    if !continue_existing && rng.chance(1, 2) {
+        let t = b.type_int(32, 0);
+        let v = rng.below(3) as u32;
+        let c1 = b.constant_bit32(t, v);
+        let c2 = b.constant_bit32(t, v);
+        let c3 = b.constant_bit32(t, v + 1);
+        let e = b.type_float(32, None);
+        let a1 = b.type_array(e, c1);
+        let st = b.type_struct(vec![e, t]);
+        b.decorate(st, rspirv::spirv::Decoration::Block, vec![]);
+        b.member_decorate(st, 0, rspirv::spirv::Decoration::Offset, vec![dr::Operand::LiteralBit32(0)]);
+        b.name(a1, "arr");
+        prelude_ids = vec![e, c1, c2, c3, t];
+    }
     let mut model: Vec<TypeDecl> = b.module_ref().types_global_values.iter().map(|i| TypeDecl { opcode: i.class.opname.to_string(), operands: i.operands.clone(), id: i.result_id, implicit: false }).collect();
     let mut fresh_ids: Vec<u32> = vec![];
     let mut explicit_ids: Vec<u32> = vec![];
@@ -51,7 +69,10 @@ fn play(rng: &mut Rng, r: &mut Report, rp: &dyn Fn() -> Json, continue_existing:
     let mut all_implicit = !continue_existing;
     // operand pool: four fixed ids plus the most recent ids the builder returned (def-use links: an array
     // whose length is a real constant, a pointer to a real type ...)
-    let mut pool: Vec<u32> = (0..4).map(|i| 7_000 + i).collect();
+    let mut pool: Vec<u32> = if prelude_ids.is_empty() { (0..4).map(|i| 7_000 + i).collect() } else { prelude_ids.iter().take(4).cloned().collect() };
+    if let Some(t) = prelude_ids.get(4) {
+        pool.push(*t);
+    }
     let steps = rng.range(1, 50);
     let mut open_block = false;
     for step in 0..steps {
